@@ -337,6 +337,14 @@ ZIP_METHOD = num(m.group(1)) if m else 0
 m = need(r"if index >= (\d+)[^{]*\{\s*let real_start = index - (\d+);", sd, "IDAT look-back", defs=["IDAT_LOOKBACK"])
 IDAT_BACK = (num(m.group(1)), num(m.group(2))) if m else (0, 0)
 
+GROUP[0] = "wrapper"
+lib = strip_comments(src("lib.rs"))
+# the bound WrapperDecompressZip puts on the expanded (intermediate) form: C12 quantifies over files whose
+# expanded form is at most 128 MiB
+m = need(r"zstd::bulk::decompress\(\s*\w+\s*,\s*([^)]+?)\s*\)", lib, "wrapper intermediate limit", defs=["WRAPPER_INTERMEDIATE_LIMIT"])
+WRAP_LIMIT = (const_eval(lib, m.group(1)) or 0) if m else 0
+if m and not WRAP_LIMIT: fail("wrapper intermediate limit: not a constant expression", ["WRAPPER_INTERMEDIATE_LIMIT"])
+
 GROUP[0] = "hash"
 ha = strip_comments(src("hash_algorithm.rs"))
 MINIZ_MASK = const_num(ha, "MINIZ_LEVEL1_HASH_SIZE_MASK")
@@ -546,6 +554,7 @@ A(f"def WRAPPER_VERSION : Nat := {WRAPPER_VERSION}")
 A(f"def CHUNK_TAGS : List Nat := {lean_list(TAGS)}")
 A(f"def LITERAL_STAGING : Nat := {STAGING}")
 A(f"def VARINT_SHAPE : List Nat := {lean_list(VARINT)}")
+A(f"def WRAPPER_INTERMEDIATE_LIMIT : Nat := {WRAP_LIMIT}")
 A(f"def MIN_BLOCKSIZE : Nat := {MIN_BLOCKSIZE}")
 A(f"def ZIP_LOCAL_FILE_HEADER_SIGNATURE : Nat := {ZIP_SIG}")
 A(f"def ZIP_METHOD_DEFLATE : Nat := {ZIP_METHOD}")
